@@ -4,7 +4,9 @@
 (* ValidVP8Packetization for the current id, which then advances.           *)
 EXTENDS VP8, TraceIO
 VARIABLES l, st
-Fresh == [poisoned |-> FALSE, id |-> 0 - 1 + 1, started |-> FALSE]
+\* payloader state: the running picture id when it is known; after a call that emitted nothing, or after the
+\* application flipped EnablePictureID, the statement does not fix it: the next id-carrying frame re-synchronises
+Fresh == [poisoned |-> FALSE, id |-> 0, known |-> FALSE, started |-> FALSE, pidon |-> FALSE]
 FieldNames == <<"X", "N", "S", "PID", "I", "L", "T", "K", "PictureID", "TL0PICIDX", "TID", "Y", "KEYIDX", "Payload">>
 RECURSIVE FirstDiff(_, _, _)
 FirstDiff(a, b, i) == IF i > Len(FieldNames) THEN "" ELSE IF a[FieldNames[i]] # b[FieldNames[i]] THEN FieldNames[i] ELSE FirstDiff(a, b, i + 1)
@@ -19,16 +21,19 @@ DecodeReason(e) ==
   ELSE IF e.out # e.want.Payload THEN "returned_bytes"
   ELSE IF e.head # (e.want.S = 1) THEN "partition_head"
   ELSE ""
-PayloadReason(e, id) ==
+ObservedId(e) == LET r == RefDecode(e.frags[1]) IN IF r.f.I = 1 THEN r.f.PictureID ELSE 0
+PayloadReason(e, id, known) ==
   LET frame == IF e.fillv < 0 THEN Pat(e.len, e.salt) ELSE Fill(e.len, e.fillv) IN
   IF e.res # "ok" THEN "payload_panic"
+  ELSE IF e.frags = <<>> THEN (IF e.len = 0 THEN "" ELSE "no_packets_for_a_frame")
   ELSE IF \E j \in 1..Len(e.decoded) : e.decoded[j].res # "ok" THEN "own_output_rejected"
   ELSE IF \E j \in 1..Len(e.frags) : LET r == RefDecode(e.frags[j]) IN ~r.ok \/ r.f # e.decoded[j].f THEN "decoder_disagrees_with_reference"
   ELSE IF Flatten([j \in 1..Len(e.decoded) |-> e.decoded[j].f.Payload]) # frame THEN "frame_not_reproduced"
   ELSE IF \E j \in 1..Len(e.decoded) : e.decoded[j].head # (j = 1) THEN "partition_head"
-  ELSE IF ~ValidVP8Packetization(frame, e.mtu, e.pidon, id, e.frags) THEN
-         (IF e.pidon /\ \E j \in 1..Len(e.frags) : ~PidFormOk(RefDecode(e.frags[j]), id) THEN "picture_id" ELSE "packetization_shape")
-  ELSE ""
+  ELSE LET want == IF known THEN id ELSE ObservedId(e) IN
+       IF ~ValidVP8Packetization(frame, e.mtu, e.pidon, want, e.frags) THEN
+         (IF e.pidon /\ \E j \in 1..Len(e.frags) : ~PidFormOk(RefDecode(e.frags[j]), want) THEN "picture_id" ELSE "packetization_shape")
+       ELSE ""
 Init == l = 1 /\ st = Fresh
 Next ==
   /\ l <= Len(Trace)
@@ -39,10 +44,14 @@ Next ==
        ELSE IF e.ev = "decode" THEN
             LET r == DecodeReason(e) IN (IF r = "" THEN TRUE ELSE Reject(e, r)) /\ UNCHANGED st
        ELSE IF e.ev = "payload" THEN
-            LET id == IF st.started THEN st.id ELSE e.startid
-                r == PayloadReason(e, id) IN
-            IF r = "" THEN st' = [st EXCEPT !.id = NextId(id), !.started = TRUE]
-            ELSE Reject(e, r) /\ st' = [st EXCEPT !.poisoned = TRUE]
+            LET toggled == st.started /\ e.pidon # st.pidon
+                id0 == IF st.started THEN st.id ELSE e.startid
+                known == (IF st.started THEN st.known ELSE TRUE) /\ ~toggled
+                r == PayloadReason(e, id0, known) IN
+            IF r # "" THEN Reject(e, r) /\ st' = [st EXCEPT !.poisoned = TRUE]
+            ELSE IF e.frags = <<>> THEN st' = [st EXCEPT !.known = FALSE, !.started = TRUE, !.pidon = e.pidon, !.id = id0]
+            ELSE IF e.pidon THEN st' = [st EXCEPT !.id = NextId(IF known THEN id0 ELSE ObservedId(e)), !.known = TRUE, !.started = TRUE, !.pidon = TRUE]
+            ELSE st' = [st EXCEPT !.id = NextId(id0), !.known = known, !.started = TRUE, !.pidon = FALSE]
        ELSE Reject(e, "unknown_event") /\ UNCHANGED st
 Spec == Init /\ [][Next]_<<l, st>>
 Done == Consumed
